@@ -94,6 +94,7 @@ def main():
     ap.add_argument("--props")
     ap.add_argument("--all-checks", action="store_true")
     ap.add_argument("--json")
+    ap.add_argument("--match", help="regular expression on <prop>/<name>; also selects every stored change whose meta.json says it was re-based")
     ap.add_argument("--dir", default=os.path.join(ROOT, "seeded"))
     ap.add_argument("--expect", default="violation", choices=["violation", "silent"],
                     help="violation: breaking changes (seeded/); silent: behaviour-preserving refactorings (refactors/)")
@@ -108,6 +109,15 @@ def main():
         for name in sorted(os.listdir(pd)):
             d = os.path.join(pd, name)
             if os.path.exists(os.path.join(d, "patch.diff")):
+                if a.match:
+                    import re
+                    rebased = False
+                    try:
+                        rebased = "rebased" in json.load(open(os.path.join(d, "meta.json")))
+                    except Exception:
+                        pass
+                    if not (re.search(a.match, "%s/%s" % (prop, name)) or rebased):
+                        continue
                 items.append((prop, name, d))
     with ThreadPoolExecutor(max_workers=8) as ex:
         results = list(ex.map(lambda it: one(it, a.all_checks), items))
